@@ -30,7 +30,7 @@ InitFlow(rq) ==
   [st |-> "Prepare", rq |-> rq, shouldSend |-> NeedsReqBody(rq.method), await100 |-> rq.expect,
    ready |-> FALSE, status |-> 0, modes |-> {},
    facts |-> (IF rq.ver10 THEN {"Http10"} ELSE {}) \cup (IF rq.connclose THEN {"ClientClose"} ELSE {}),
-   skipped |-> 0, bodyAsked |-> FALSE]
+   skipped |-> 0, bodyAsked |-> FALSE, refused |-> FALSE]
 
 (***************************************************************************)
 (* The documented state graph (src/client/mod.rs) as a successor function. *)
@@ -64,6 +64,8 @@ ReasonFact(text) ==
 ProceedFails(s, e) ==
   LET can == IF AlwaysReady(s.st) THEN TRUE ELSE e.ready
   IN   FClause("C09", "readiness query and advancing disagree", (e.res # "none") <=> can)
+  \cup FClause("C09", "a flow whose request was refused at write advanced to the next state",
+               (s.st = "SendRequest" /\ s.refused) => e.res = "none")
   \cup FClause("C09", "advancing failed with an error", e.res # "err")
   \cup FClause("C09", "flow landed in a state the documented state graph does not prescribe",
                e.res \notin {"none", "err"} => e.res \in Succ(s))
